@@ -65,6 +65,22 @@ CHECKS = {
    "value-first reference-model monitor: expected = highest-priority source, sources really set (argv, environment, JSON file / CFG_CONFIG_B64); exhaustive type x source-mask lattice, seeded random structs",
    "Structs are built with reflect.StructOf; per field a 4-bit mask of {tag default, JSON, env, cli} and one typed value per source are chosen first and rendered into each source's syntax, so the oracle never parses. The lattice 9 types x 16 masks x nesting depth x tag syntax x JSON carrier x cli spelling x value classes (zero, extremes, empty text, awkward strings) is run completely (2*10^5 parses), plus 5*10^4/1.6*10^6 random structs of 1-12 fields with independent masks.",
    "JSON null, unknown and case-folded JSON keys are not generated; env names come from a hand-written pool.", "§3 C09"),
+ "C06": ("lane", "fault_enumeration",
+   "event-log checker over API-boundary histories (PushTask results, per-task start counters, logical clock) with cancellation injected at every protocol point through the verif hook; quiescence decided from goroutine dumps",
+   "Cancel is fired on the k-th hit (k in 1,2,3,5,8) of each of 13 hook points between the channel operations of PushTask, the queue goroutine and the worker, on 9 small lane/queue configurations in 3 load shapes (free running, all workers pinned with blocked producers, timeouts against a full lane), plus 300 (quick) / 20 000 (thorough, also at GOMAXPROCS 2 and 4 and under -race) random scenarios. Decided: no task starts twice, no task whose PushTask returned an error ever starts (judged when no lane goroutine exists any more), and with the context live every accepted task has started once the lane is structurally at rest.",
+   "'Eventually' is decided as bounded progress to a quiescent goroutine dump; schedules are those the hook perturbation and the machine produced (distinct hook traces are counted).", "§3 C06"),
+ "C07": ("lane", "fault_enumeration",
+   "same scenario runner: after cancel the system must reach 'Wait returned, no lane goroutine' and never rest with a parked producer / lane goroutine; exit hooks tell whether Wait returned early",
+   "Same cancel-point enumeration and random scenarios as C06. After the cancel and after releasing all gated tasks the monitor follows goroutine dumps: coming to rest with a producer in PushTask, a lane goroutine parked or Wait not returned is a violation (Done() is closed, so only a select without that case can park). Pushes begun after cancel returned must return the context's error and never start; after Wait a dump must show no lane goroutine; Wait may not return before all 2 x laneSize goroutines reached their exit hook; no start after Wait.",
+   "A lane goroutine that spins instead of parking makes the run inconclusive (watchdog), not a violation.", "§3 C07"),
+ "C08": ("lane", "exploration",
+   "running-task counter inside Start() and head-of-line rule at structurally quiescent states with pinned workers",
+   "1..laneSize-1 workers are pinned by gated tasks (including the target lane's own worker) for laneSize 2,3,4,8 x queueSize 0,1,2,5; everything is pushed to one lane, to the pinned lanes only, round-robin or via ShortestQueueIndex, with and without hook perturbation; at rest with the context live and fewer than laneSize tasks running, no accepted task may be unstarted; max(enter - exit) <= laneSize at every task entry.",
+   "Schedules sampled, not enumerated.", "§3 C08"),
+ "C14": ("lane", "exploration",
+   "Status() pollers (bounds on every sample), exact pending comparison at quiescent states, LastPanic membership, Go race detector on simultaneous-panic scenarios",
+   "Stable states with all workers pinned and k = 0..capacity tasks accepted behind them (PendingTask must equal k exactly), overflow with timeouts, panic mixes of five dynamic value types on every lane, one gated panicking task per worker released at once; 1-4 goroutines poll Status() throughout. After panics every other accepted task must have started exactly once, the lane keeps its 2 x laneSize goroutines, and LastPanic == one of the raised values. The simultaneous-panic scenarios run under -race without the hook at GOMAXPROCS 2/4/16.",
+   "Race reports are schedule dependent; the scenarios are repeated (40 quick / 600 thorough per GOMAXPROCS value).", "§3 C14"),
 }
 BUILT = set(CHECKS)
 
@@ -97,7 +113,7 @@ def main():
             "guard": "verif",
             "enable": "go build -tags verif (the monitors in /verif/mon are built with it by ./check; module replace github.com/whoisnian/glb => /repo)",
             "baseline_off_cmd": "cd /repo && GOFLAGS=-mod=mod GOPROXY=off GOSUMDB=off GOTOOLCHAIN=local go test -vet=off -count=1 ./...",
-            "source_commits": ["55518f9"],
+            "source_commits": ["55518f9", "9fa74b3"],
             "add_only": True,
         },
         "engines": [{"name": k, "path": "/verif/mon/" + k, "serves_properties": sorted(v),
